@@ -396,7 +396,9 @@ Section CG.
     final_ok (cg_tolerance P g) res /\ (0 <= res_iter res <= Z.max 0 (max_iter P + 1))%Z /\
     forall t, 0 <= t -> t * t * rdot g g <= Δ * Δ -> res_val res <= qm (vscale (- t) g).
   Proof.
-    unfold cg_solve. pose proof (loop_spec (cg_fuel P) (cg_tolerance P g) 0%Z (cg_init g) init_inv) as H.
+    unfold cg_solve. cbn [cg_init st_rsq]. rewrite vsqnorm_rdot. numR.
+    destruct (Req_bool_spec (rdot g g) 0) as [E|_]; [lra|].
+    pose proof (loop_spec (cg_fuel P) (cg_tolerance P g) 0%Z (cg_init g) init_inv) as H.
     assert (H1 : (1 <= Z.of_nat (cg_fuel P))%Z) by (unfold cg_fuel; lia).
     assert (H2 : (max_iter P + 2 <= Z.of_nat (cg_fuel P) + 0)%Z) by (unfold cg_fuel; lia).
     specialize (H H1 H2). cbv zeta in H |- *. destruct H as (Hfin & Hi1 & Hi2 & Hle).
@@ -807,6 +809,23 @@ Definition sym_linear_op (n : nat) (B : list R -> list R) : Prop :=
   (forall (a : R) v, length v = n -> B (vscale a v) = vscale a (B v)) /\
   (forall u v, length u = n -> length v = n -> vdot u (B v) = vdot (B u) v).
 
+(* the zero-gradient early return *)
+Lemma rdot_zero_is_zeros (g : list R) : rdot g g = 0 -> g = zeros g.
+Proof.
+  induction g as [|x l IH]; cbn; [reflexivity|]. intros E.
+  pose proof (rdot_nonneg l) as Hl. pose proof (Rle_0_sqr x) as Hx; unfold Rsqr in Hx.
+  assert (x = 0) by nra. subst x. f_equal. apply IH. lra.
+Qed.
+
+Definition zero_result (g : list R) : cg_result R :=
+  {| res_step := zeros g; res_val := 0; res_exit := ExZeroGrad; res_iter := 0%Z |}.
+
+Lemma cg_solve_zero_gradient B (g : list R) Δ P : rdot g g = 0 -> cg_solve B g Δ P = zero_result g.
+Proof.
+  intros E. unfold cg_solve. cbn [cg_init st_rsq]. rewrite vsqnorm_rdot. numR.
+  destruct (Req_bool_spec (rdot g g) 0); [reflexivity | contradiction].
+Qed.
+
 Section Packaged.
   Variables (n : nat) (B : list R -> list R) (g : list R) (Δ : R) (P : cg_params R).
   Hypothesis HB : sym_linear_op n B.
@@ -817,37 +836,106 @@ Section Packaged.
 
   Ltac use L := destruct HB as (HB1 & HB2 & HB3 & HB4); eapply L; eauto.
 
-  Lemma P_terminates : g <> zeros g ->
+  (* either the early return was taken (g = 0) or the loop ran on g <> 0 *)
+  Lemma g_cases : (rdot g g = 0 /\ res = zero_result g) \/ g <> zeros g.
+  Proof.
+    destruct (Req_dec (rdot g g) 0) as [E|E].
+    - left. split; [exact E | apply cg_solve_zero_gradient; exact E].
+    - right. intros Hz. apply E. rewrite Hz. apply rdot_zeros_l.
+  Qed.
+
+  Lemma vnorm2_zeros : vnorm2 (zeros g) = 0.
+  Proof. rewrite vnorm2_rdot, rdot_zeros_l. apply sqrt_0. Qed.
+  Lemma model_zeros : q (zeros g) = 0.
+  Proof. unfold model. rewrite !vdot_rdot, (rdot_comm g), !rdot_zeros_l. lra. Qed.
+  Lemma model_ray_zero c : rdot g g = 0 -> q (vscale c g) = 0.
+  Proof.
+    intros E. unfold model. rewrite !vdot_rdot, rdot_vscale_r, rdot_vscale_l, E.
+    rewrite (rdot_comm g), (rdot_self_zero g _ E). lra.
+  Qed.
+
+  Lemma P_zero_gradient : g = zeros g ->
+    res_step res = zeros g /\ res_val res = 0 /\ res_exit res = ExZeroGrad /\ res_iter res = 0%Z /\
+    res_val res = q (res_step res) /\ vnorm2 (res_step res) <= Δ /\ res_val res <= q (cauchy_point B g Δ).
+  Proof.
+    intros Hz. assert (E : rdot g g = 0) by (rewrite Hz; apply rdot_zeros_l).
+    rewrite (cg_solve_zero_gradient B g Δ P E). cbn [zero_result res_step res_val res_exit res_iter].
+    repeat split; try reflexivity.
+    - rewrite model_zeros. reflexivity.
+    - rewrite vnorm2_zeros. lra.
+    - unfold cauchy_point. rewrite model_ray_zero by exact E. lra.
+  Qed.
+
+  Lemma P_terminates :
     res_exit res <> ExFuel /\ res_exit res <> ExNaN /\ (0 <= res_iter res <= Z.max 0 (max_iter P + 1))%Z.
-  Proof. intros. use solve_terminates. Qed.
-  Lemma P_step_length : g <> zeros g -> length (res_step res) = n.
-  Proof. intros. use solve_length. Qed.
-  Lemma P_norm_le_radius : g <> zeros g -> vnorm2 (res_step res) <= Δ.
-  Proof. intros. use solve_norm_le_radius. Qed.
-  Lemma P_value_is_model : g <> zeros g -> res_val res = vdot g (res_step res) + / 2 * vdot (res_step res) (B (res_step res)).
-  Proof. intros. change (res_val res = q (res_step res)). use solve_value_is_model. Qed.
-  Lemma P_nonpositive : g <> zeros g -> res_val res <= 0.
-  Proof. intros. use solve_nonpositive. Qed.
-  Lemma P_le_steepest_descent : g <> zeros g -> forall t, 0 <= t -> vnorm2 (vscale (- t) g) <= Δ ->
+  Proof.
+    destruct g_cases as [[_ ->]|Hnz]; [cbn; repeat split; try discriminate; lia | use solve_terminates].
+  Qed.
+  Lemma P_step_length : length (res_step res) = n.
+  Proof. destruct g_cases as [[_ ->]|Hnz]; [cbn; rewrite zeros_length; exact Hg | use solve_length]. Qed.
+  Lemma P_norm_le_radius : vnorm2 (res_step res) <= Δ.
+  Proof. destruct g_cases as [[_ ->]|Hnz]; [cbn [zero_result res_step]; rewrite vnorm2_zeros; lra | use solve_norm_le_radius]. Qed.
+  Lemma P_value_is_model : res_val res = vdot g (res_step res) + / 2 * vdot (res_step res) (B (res_step res)).
+  Proof.
+    change (res_val res = q (res_step res)).
+    destruct g_cases as [[_ ->]|Hnz]; [cbn [zero_result res_step res_val]; rewrite model_zeros; reflexivity | use solve_value_is_model].
+  Qed.
+  Lemma P_nonpositive : res_val res <= 0.
+  Proof. destruct g_cases as [[_ ->]|Hnz]; [cbn; lra | use solve_nonpositive]. Qed.
+  Lemma P_le_steepest_descent : forall t, 0 <= t -> vnorm2 (vscale (- t) g) <= Δ ->
     res_val res <= q (vscale (- t) g).
-  Proof. intros. use solve_le_steepest_descent. Qed.
-  Lemma P_le_cauchy : g <> zeros g -> res_val res <= q (cauchy_point B g Δ).
-  Proof. intros. use solve_le_cauchy. Qed.
-  Lemma P_cauchy_point_spec : g <> zeros g ->
+  Proof.
+    intros t Ht Hn. destruct g_cases as [[E ->]|Hnz]; [|use solve_le_steepest_descent].
+    cbn [zero_result res_val]. rewrite model_ray_zero by exact E. lra.
+  Qed.
+  Lemma P_le_cauchy : res_val res <= q (cauchy_point B g Δ).
+  Proof.
+    destruct g_cases as [[E ->]|Hnz]; [|use solve_le_cauchy].
+    cbn [zero_result res_val]. unfold cauchy_point. rewrite model_ray_zero by exact E. lra.
+  Qed.
+  Lemma P_cauchy_point_spec :
     vnorm2 (cauchy_point B g Δ) <= Δ /\
     forall t, 0 <= t -> vnorm2 (vscale (- t) g) <= Δ -> q (cauchy_point B g Δ) <= q (vscale (- t) g).
   Proof.
-    intros. split; [use cauchy_feasible|]. intros. destruct HB as (HB1 & HB2 & HB3 & HB4).
-    eapply cauchy_is_ray_minimiser; eauto.
+    assert (Hc : rdot g g = 0 \/ g <> zeros g).
+    { destruct (Req_dec (rdot g g) 0) as [E|E]; [left; exact E|].
+      right. intros Hz. apply E. rewrite Hz. apply rdot_zeros_l. }
+    destruct Hc as [E|Hnz].
+    - unfold cauchy_point. split.
+      + rewrite vnorm2_rdot, rdot_vscale_l, rdot_vscale_r, E, !Rmult_0_r, sqrt_0. lra.
+      + intros. rewrite !model_ray_zero by exact E. lra.
+    - split; [use cauchy_feasible|]. intros. destruct HB as (HB1 & HB2 & HB3 & HB4).
+      eapply cauchy_is_ray_minimiser; eauto.
   Qed.
-  Lemma P_exit_kinds : g <> zeros g ->
+  Lemma P_exit_kinds :
     ((res_exit res = ExNegCurvA \/ res_exit res = ExNegCurvB \/ res_exit res = ExBoundary) -> vnorm2 (res_step res) = Δ) /\
-    (res_exit res = ExInterior <-> vnorm2 (res_step res) < Δ).
-  Proof. intros. use solve_exit_kinds. Qed.
-  Lemma P_interior_exit_reason : g <> zeros g -> vnorm2 (res_step res) < Δ ->
+    ((res_exit res = ExInterior \/ res_exit res = ExZeroGrad) <-> vnorm2 (res_step res) < Δ) /\
+    (res_exit res = ExZeroGrad <-> g = zeros g).
+  Proof.
+    destruct g_cases as [[E ->]|Hnz].
+    - cbn [zero_result res_step res_exit]. rewrite vnorm2_zeros. split; [|split].
+      + intros [H|[H|H]]; discriminate.
+      + split; [intros; lra | intros; right; reflexivity].
+      + split; [intros; apply rdot_zero_is_zeros; exact E | reflexivity].
+    - destruct HB as (HB1 & HB2 & HB3 & HB4).
+      destruct (solve_exit_kinds n B HB1 HB2 HB3 HB4 g Hg Δ HΔ P Hnz) as [K1 K2].
+      destruct (solve_terminates n B HB1 HB2 HB3 HB4 g Hg Δ HΔ P Hnz) as (_ & _ & _).
+      pose proof (spec n B HB1 HB2 HB3 HB4 g Hg Δ HΔ P Hnz) as ((_ & _ & Hk & _) & _).
+      assert (Hnzg : res_exit res <> ExZeroGrad) by (intros E; rewrite E in Hk; destruct Hk as [H|[H|[H|H]]]; discriminate).
+      split; [exact K1|]. split.
+      + split; [intros [H|H]; [apply K2; exact H | contradiction] | intros H; left; apply K2; exact H].
+      + split; [intros; contradiction | intros; contradiction].
+  Qed.
+  Lemma P_interior_exit_reason : vnorm2 (res_step res) < Δ ->
     let r := vadd g (B (res_step res)) in
     vnorm2 r < cg_tolerance P g \/ vnorm2 r = 0 \/ (max_iter P < res_iter res)%Z.
-  Proof. intros. use solve_interior_exit_reason. Qed.
+  Proof.
+    destruct g_cases as [[E ->]|Hnz]; [|intros; use solve_interior_exit_reason].
+    intros _. cbn [zero_result res_step]. cbv zeta. right; left.
+    destruct HB as (HB1 & HB2 & HB3 & HB4).
+    rewrite zeros_vscale, HB3 by exact Hg. rewrite vadd_vscale0 by (rewrite HB1; congruence).
+    rewrite vnorm2_rdot, E. apply sqrt_0.
+  Qed.
 
   Lemma P_invariant_init : g <> zeros g -> cg_invariant n B g Δ (cg_init g).
   Proof. intros. use cg_invariant_init. Qed.
@@ -868,16 +956,27 @@ Section Packaged.
   Proof. intros. use overlong_gives_boundary. Qed.
 End Packaged.
 
+(* Newton-TR: no hypothesis on r_J any more (r_J = 0 takes the early return of solve) *)
 Lemma P_newton_tr_value (Hprod : list R -> list R) (P : cg_params R) (hvf γ Δ : R) (J : list nat) (p : list R) :
   0 < Δ -> sym_linear_op (length J) (BJ_of Hprod J p) ->
   let r := newton_tr_apply Hprod P hvf γ J p Δ in
   let qJ := res_step (ntr_cg r) in
-  ntr_rJ r <> zeros (ntr_rJ r) ->
   vnorm2 qJ <= Δ /\
   ntr_val r = (vdot (ntr_rJ r) qJ + / 2 * vdot qJ (BJ_of Hprod J p qJ)) - sqnorm_active J p / (2 * γ) /\
   ntr_val r <= - (sqnorm_active J p / (2 * γ)) /\
   ntr_val r <= model (BJ_of Hprod J p) (ntr_rJ r) (cauchy_point (BJ_of Hprod J p) (ntr_rJ r) Δ) - sqnorm_active J p / (2 * γ).
-Proof. intros HΔ (H1 & H2 & H3 & H4) r qJ Hr. apply newton_tr_value; assumption. Qed.
+Proof.
+  intros HΔ HB r qJ.
+  pose proof (rJ_length Hprod P hvf γ Δ J p) as Hl. fold r in Hl.
+  pose proof (P_norm_le_radius _ _ _ Δ P HB Hl HΔ) as H1.
+  pose proof (P_value_is_model _ _ _ Δ P HB Hl HΔ) as H2.
+  pose proof (P_nonpositive _ _ _ Δ P HB Hl HΔ) as H3.
+  pose proof (P_le_cauchy _ _ _ Δ P HB Hl HΔ) as H4.
+  change (cg_solve (BJ_of Hprod J p) (ntr_rJ r) Δ P) with (ntr_cg r) in H1, H2, H3, H4. fold qJ in H1, H2.
+  assert (Hv : ntr_val r = res_val (ntr_cg r) - sqnorm_active J p / (2 * γ)).
+  { unfold r, newton_tr_apply. cbn [ntr_val ntr_cg]. numR. replace (1 + 1) with 2 by ring. reflexivity. }
+  split; [exact H1|]. split; [rewrite Hv, H2; reflexivity|]. split; rewrite Hv; lra.
+Qed.
 
 (* a dense symmetric matrix is such an operator: the 2x2 example used for non-vacuity *)
 Lemma example_op_sym_linear : sym_linear_op 2 (mat_vec [[2; 1]; [1; -3]]).
